@@ -341,8 +341,7 @@ def jobs(tier):
              # simulators that can be in the middle of a step when another one fails: no lazy wait / no connection
              ('tb2', ['A', 'B'], False), ('hyb2', ['A'], False), ('chain3ev', ['A', 'C'], True)]
     if not q:
-        plans += [('tbloop', ['A', 'B'], True), ('weak2', ['A'], True), ('chain3', ['B'], True), ('tbchain3', ['A', 'B', 'C'], True), ('fanin', ['C'], True),
-                  ('tbchain3', ['A', 'B', 'C'], False), ('chain3ev', ['B'], False)]
+        plans += [('tbloop', ['A', 'B'], True), ('weak2', ['A'], True), ('chain3', ['B'], True), ('fanin', ['C'], True), ('tbchain3', ['B'], False)]
     for name, culprits, lazy in plans:
         t = cur[name]
         for culprit in culprits:
@@ -354,7 +353,9 @@ def jobs(tier):
                         continue
                     if q and (not lazy or len(t['types']) > 2) and kind == 'eof':
                         continue
-                    masks = [[], sorted(t['types'])] if q else list(T.sync_masks(t, 'all' if len(t['types']) <= 2 else 'extremes'))
+                    if not q and stage == 'before' and kind in ('eof', 'typeerr'):
+                        continue
+                    masks = [[], sorted(t['types'])] if q else list(T.sync_masks(t, 'all' if (name in ('tb2', 'hyb2') and lazy) else 'extremes'))
                     if len(t['types']) > 2 and q:
                         masks = [[]]
                     for sync in masks:
@@ -368,8 +369,8 @@ def jobs(tier):
               # without lazy stepping both simulators can be inside a request when one of them fails
               ('tb2', ['A'], [['A', 'B']], False)]
     if not q:
-        rplans += [('tb2', ['B'], [['A', 'B'], ['B']], False), ('tb2', ['A'], [['A']], False), ('hyb2', ['B'], [['A', 'B'], ['B']], True), ('tb_ev', ['B'], [['A', 'B']], True),
-                   ('chain3ev', ['A', 'B'], [['A', 'B', 'C']], True), ('tbchain3', ['B'], [['A', 'B', 'C'], ['B']], True), ('fanin', ['C'], [['A', 'B', 'C']], True)]
+        rplans += [('tb2', ['B'], [['A', 'B'], ['B']], False), ('tb2', ['A'], [['A']], False), ('hyb2', ['B'], [['A', 'B'], ['B']], True),
+                   ('tb_ev', ['B'], [['A', 'B']], True), ('chain3ev', ['A'], [['A', 'B', 'C']], True)]
     for name, culprits, remotes, lazy in rplans:
         t = cur[name]
         for culprit in culprits:
